@@ -564,7 +564,7 @@ theorem S_calleeTail (v : Variant) (m : Nat) (hasRoot : Bool) (rootType : Nat) (
   unfold calleeTail
   refine S_bind_tok (S_tryConsume m _) (fun _ _ _ => ?_) (fun _ _ _ _ h => ?_)
   · exact S_errPeek v 20
-  · exact S_bind (S_newID h) (fun _ _ _ _ _ => S_pure _)
+  · exact S_bind (S_newID h) (fun _ _ _ hj _ => S_bind (S_lineOf (h.mono hj)) (fun _ _ _ _ _ => S_pure _))
 
 end prims
 
